@@ -63,3 +63,15 @@ def is_granular(word):
     if mj == "PAF" and sb == "PCM_24":
         return False
     return True
+
+
+def family(word):
+    """codec / container family used in finding keys"""
+    n = name(word)
+    if n.startswith("SDS/"):
+        return "SDS"
+    if n.startswith("PAF/PCM_24"):
+        return "PAF24"
+    if n.startswith("VOC/"):
+        return "VOC"
+    return n
